@@ -283,7 +283,7 @@ pub fn run(ctx: &Ctx) {
         ctx.report(v);
     });
     ctx.subspace(&format!("switch mode: all sequences of length {} over a 10-op alphabet on 3 nodes", depth), total, true);
-    let n: u32 = ctx.tier.pick(500, 10_000);
+    let n: u32 = ctx.tier.pick(2_000, 20_000);
     ctx.proptest("pt-learning", n, || (3u8..=4, proptest::bool::weighted(0.2), proptest::collection::vec(op_strategy(), 1..300)), |(nodes, hub, ops)| {
         let c = Case { nodes: *nodes, hub: *hub, ops: ops.clone() };
         let v = run_case(ctx, &c);
